@@ -14,6 +14,7 @@ RULE = ('each event is one public Fq2 call (six operator forms of + - *, neg, ne
 ASSUMPTIONS = ['carry counts are computed by the model from the operands (Montgomery representatives), not read from the crate']
 
 FORMS = ['vv', 'rv', 'vr', 'rr', 'av', 'ar']
+HOOK_CLASSES = ('sqr.hook', 'sop.', 'carry.sop')
 QINV = (-pow(q, -1, R)) % R
 
 
